@@ -392,22 +392,29 @@ def guard_by_truth_assignment(ctx, prog, SS, ex_all, z1, fd, forks, dir_sw=None,
     readys = sorted({b_ for i in ba.calls(r"core::future::ready::ready") for b_ in common.const_int_entry_blocks(SS, i, 0, 0)})
     assigns = {"override": force(Es, True) | force(Ds, False) | force(Os, True),
                "not-generated": force(Es, True) | force(Ds, False) | force(Os, False) | force(Gs, False)}
+    # the same values where the result of a call is kept in a flag and branched on later (`let not_ours = .. || !sf.is_generated()`)
+    g_calls = ba.calls(r"state::File::is_generated")
+    d_calls = ba.calls("|".join(re.escape(k) for k in sorted(dirtests)))
+    forced = {"override": {c: False for c in d_calls},
+              "not-generated": {c: False for c in list(d_calls) + list(g_calls)}}
     for nm, cuts in assigns.items():
-        common.not_reach_fl(ctx, "R11.1", "%s|then-side(%s)-builds-nothing" % (key, nm), SS, [0], bad_targets + muts,
-                           "the leave-alone side reaches neither zap_deps1, the .do search, the fork nor a mutator", "an existing file redo did not produce can still be rebuilt/overwritten", cut_edges=cuts)
-    allcuts = None
-    ok_ret = True
+        p_ = fa.path([0], bad_targets + muts, cut_edges=frozenset(cuts), incl=True, forced_calls=forced[nm])
+        ctx.ob("R11.1", "%s|then-side(%s)-builds-nothing" % (key, nm), p_ is None, where=ctx.where(SS, p_[-1]) if p_ else SS.span,
+               detail="the leave-alone side reaches neither zap_deps1, the .do search, the fork nor a mutator" if p_ is None else "an existing file redo did not produce can still be rebuilt/overwritten",
+               witness={"path": p_[:40] if p_ else None})
+    ok_ret, wit_ret = True, None
     for nm, cuts in assigns.items():
-        if fa.path([0], rets, avoid=frozenset(readys), cut_edges=frozenset(cuts), incl=True) is not None:
-            ok_ret = False
+        pr_ = fa.path([0], rets, avoid=frozenset(readys), cut_edges=frozenset(cuts), incl=True, forced_calls=forced[nm])
+        if pr_ is not None:
+            ok_ret, wit_ret = False, pr_
     ctx.ob("R11.1", "%s|then-side-returns-success" % key, ok_ret and bool(readys), where=SS.span,
-           detail="the leave-alone side returns a ready EXIT_SUCCESS" if ok_ret and readys else "the leave-alone side does not return success")
+           detail="the leave-alone side returns a ready EXIT_SUCCESS" if ok_ret and readys else "the leave-alone side does not return success", witness={"path": wit_ret})
     # positive controls: the guard does not swallow everything
     goodcuts = force(Es, True) | force(Ds, False) | force(Os, False) | force(Gs, True)
     ctx.ob("R11.1", "%s|build-steps-dominated-by-guard" % key, bool(forks) and fa.path([0], z1, cut_edges=frozenset(goodcuts), incl=True) is not None and
            fa.path([0], z1, cut_edges=frozenset(force(Es, False)), incl=True) is not None, where=SS.span,
            detail="a generated, not overridden target and a missing target still reach the build steps")
-    reach_o = fa.reach_incl([0], cut_edges=frozenset(assigns["override"]))
+    reach_o = fa.reach_incl([0], cut_edges=frozenset(assigns["override"]), forced_calls=forced["override"])
     statics = [i for i in ba.calls(r"state::File::set_static") if i in reach_o and not (z1 and ba.dominates(z1[0], i))]
     ctx.ob("R11.1", "%s|set_static-only-if-not-override" % key, not statics, where=ctx.where(SS, statics[0]) if statics else SS.span,
            detail="set_static (which clears the override flag) is not reachable for an overridden file" if not statics else "an overridden target is turned back into a plain source, losing the override flag")
@@ -430,8 +437,32 @@ def guard_by_truth_assignment(ctx, prog, SS, ex_all, z1, fd, forks, dir_sw=None,
             ctx.ob("R11.12", "%s|guard-directory-test-is-lstat" % key, kinds_ == {"nofollow"}, where=ctx.where(SS, sw),
                    detail="the directory test does not follow symbolic links" if kinds_ == {"nofollow"} else "the directory test follows symbolic links")
     exact = ("R11.10", "R11.12")
-    failed = [(rid_, k_) for (rid_, k_, ok_, kw_) in ctx.items if not ok_ and rid_ not in exact]
-    if failed:
+
+    def opaque(kw_):
+        """does the witness run through a branch on a computed flag (a bool with several definitions that FAL did not
+        resolve)? Then the path may not be executable; without such a branch every decision on it is an atom or a
+        condition of its own, and the finding stands."""
+        pth = (kw_.get("witness") or {}).get("path") if isinstance(kw_.get("witness"), dict) else None
+        if not pth:
+            return True
+        for b_ in pth:
+            bs_ = ba.bool_switch(b_)
+            if bs_ is not None and bs_[2][0] == "unknown":
+                return True
+        return False
+    # sf.is_override read into an expression (`!(generated && !sf.is_override)`) instead of being branched on: the value
+    # cannot be forced by cutting edges, so what the (E, !D, O) assignment finds is not reliable
+    from core import rvalue_places as _rvp
+    o_reads = sum(1 for blk_ in SS.blocks for st_ in blk_["stmts"] if st_["s"] == "assign" and st_["rv"]["k"] in ("use", "unop")
+                  and any(place_fields(pl_)[-1:] == ["state::File.is_override"] for pl_ in _rvp(st_["rv"]) if pl_ is not None))
+    o_opaque = o_reads > len(Os)
+    o_keys = ("then-side(override)", "override-side-keeps-the-flag", "no-flag-clearing-before-the-guard", "set_static-only-if-not-override", "then-side-returns-success")
+
+    def soft(k_, kw_):
+        return opaque(kw_) or (o_opaque and any(x in k_ for x in o_keys))
+    failed = [(rid_, k_) for (rid_, k_, ok_, kw_) in ctx.items if not ok_ and rid_ not in exact and soft(k_, kw_)]
+    hard = [(rid_, k_) for (rid_, k_, ok_, kw_) in ctx.items if not ok_ and rid_ not in exact and not soft(k_, kw_)]
+    if failed and not hard:
         from facts import AnchorError
         raise AnchorError("R11.1: the leave-alone guard of %s is not written in a shape the exact rule knows, and the truth-assignment check could not establish: %s" % (key, ", ".join(k_.split("|", 1)[1] for _, k_ in failed)))
     for (rid_, k_, ok_, kw_) in ctx.items:
@@ -444,7 +475,7 @@ def guard_by_truth_assignment(ctx, prog, SS, ex_all, z1, fd, forks, dir_sw=None,
     buf = _Buf()
     _r11_rest(buf, prog, SS, E)
     failed = [(rid_, k_) for (rid_, k_, ok_, kw_) in buf.items if not ok_ and rid_ == "R11.2" and SS.key in k_]
-    if failed:
+    if failed and not hard:
         from facts import AnchorError
         raise AnchorError("R11.2: with the leave-alone guard of %s located only approximately, not established: %s" % (key, ", ".join(k_.split("|", 1)[1] for _, k_ in failed)))
     for (rid_, k_, ok_, kw_) in buf.items:
